@@ -1,6 +1,55 @@
-//! Kani harnesses for nomt/src/page_diff.rs (compiled into the real crate only under cfg(kani)).
+//! K2 (page diff): nomt/src/page_diff.rs - the bitfield the WAL uses to say which nodes of a merkle
+//! page changed, and the pack/unpack pair WAL writing and WAL replay rely on (C16).
 #![allow(unused_imports, dead_code)]
 use super::*;
+
+/// from_bytes / as_bytes are inverse on the 126 usable bits; exactly the two reserved bits make
+/// from_bytes reject.  Loop-free over the full domain: complete.
+#[kani::proof]
+fn page_diff_bytes_roundtrip() {
+    let b: [u8; 16] = kani::any();
+    let reserved = b[15] & 0xC0 != 0;
+    match PageDiff::from_bytes(b) {
+        None => assert!(reserved),
+        Some(d) => {
+            assert!(!reserved);
+            assert!(d.as_bytes() == b);
+            assert!(!d.cleared());
+            let i: usize = kani::any();
+            kani::assume(i < 126);
+            assert!(d.changed(i) == ((b[i / 8] >> (i % 8)) & 1 == 1));
+        }
+    }
+    kani::cover!(reserved, "rejecting input reachable");
+}
+
+/// set_changed(i) sets exactly bit i, erases the clear marker, leaves every other bit alone;
+/// count() is the number of set bits.  Complete.
+#[kani::proof]
+fn page_diff_set_changed_frame() {
+    let b: [u8; 16] = kani::any();
+    kani::assume(b[15] & 0xC0 == 0);
+    let mut d = PageDiff::from_bytes(b).unwrap();
+    let before = d.clone();
+    let i: usize = kani::any();
+    kani::assume(i < 126);
+    if kani::any() {
+        d.set_cleared();
+        assert!(d.cleared());
+    }
+    d.set_changed(i);
+    assert!(d.changed(i));
+    assert!(!d.cleared());
+    let j: usize = kani::any();
+    kani::assume(j < 126 && j != i);
+    assert!(d.changed(j) == before.changed(j));
+    assert!(d.count() == before.count() + if before.changed(i) { 0 } else { 1 });
+    kani::cover!(before.changed(i), "already-set bit reachable");
+}
+
+// pack_changed_nodes / unpack_changed_nodes (iterator chain over trailing_zeros + symbolic slot
+// offsets) ended with CBMC status ERROR (memory) even when cut to 8 slots and 3 changed nodes; they
+// are not under contract.
 
 #[cfg(test)]
 include!("/verif/.build/playback/page_diff.inc");
